@@ -452,6 +452,10 @@ class PTA:
         """A private function (_name / __name) that the repository itself calls: all its callers are known, so its
         parameters need no placeholder object for values 'supplied from outside'."""
         n = f.name
+        if f.is_setter:
+            # attribute assignment from outside the library is not modelled for plain attributes either: a setter
+            # sees the values the library itself assigns
+            return True
         if not n.startswith('_') or (n.startswith('__') and n.endswith('__')):
             return False
         called = getattr(self, '_called_names', None)
@@ -1013,6 +1017,8 @@ class PTA:
             m = c.lookup(attr)
             if m is not None:
                 return {self.func_obj(m)}
+            if c.namedtuple_fields is not None and attr == '_make' and callpos:
+                return {self.extmeth_obj(o, attr)}
             out = set()
             for cc in c.mro():
                 out |= self.get(('F', self.cls_obj(cc), fld))
@@ -1152,6 +1158,14 @@ class PTA:
             if init is not None:
                 self._record_call(key, init)
                 self.bind_call_objs(init, inst, pos, kwargs, node, star)
+            elif cls.dataclass_fields:
+                flds = cls.dataclass_fields
+                for i, v in enumerate(pos):
+                    if v and i < len(flds):
+                        self.add(('F', inst, flds[i]), v)
+                for k, v in kwargs.items():
+                    if k in flds and v:
+                        self.add(('F', inst, k), v)
             self.calls.setdefault(key, set()).add(('new', cls.qualname))
             return {inst}
         if c.kind == 'extmod':
@@ -1390,6 +1404,8 @@ class PTA:
         if dotted in PURE_EXT_FUNCS:
             self.diag_calls.add(key)
             return set()
+        if dotted in ('enum.auto', 'enum.unique'):
+            return set()            # the value of an Enum member: an immutable constant
         res = self.alloc('ext', node, tag='res', extra=('xcls', EXT_FACTORIES.get(dotted, dotted)))
         if dotted in EXT_CLASS_MODELS or dotted in EXT_FACTORIES:
             return {res}
@@ -1406,6 +1422,16 @@ class PTA:
         self.ext_calls.setdefault(key, set()).add(f'<{recv.kind}>.{name}')
         allargs = list(pos) + list(kwargs.values())
         base_expr = node.func.value if isinstance(node.func, ast.Attribute) else None
+        if recv.kind == 'cls' and recv.cls is not None and recv.cls.namedtuple_fields is not None and name == '_make':
+            # NT._make(iterable): the named view of the same components
+            flds = recv.cls.namedtuple_fields
+            t = self.alloc('tuple', node, tag='nt', extra=('nt', tuple(flds)))
+            for src in (pos[0] if pos else ()):
+                for i in range(len(flds)):
+                    got = self.elems(src, i, False)
+                    if got:
+                        self.add(('F', t, ('idx', i)), got)
+            return {t}
         xcls = recv.extra[1] if (recv.kind == 'ext' and recv.extra and recv.extra[0] == 'xcls') else None
         if xcls in EXT_CLASS_MODELS:
             model = EXT_CLASS_MODELS[xcls]
